@@ -404,41 +404,106 @@ pub(crate) mod scopeshape {
 }
 use scopeshape::{Ev, ScopeRef as MockScope};
 
-/// C16: the body of `@media` runs in a NEW scope whose parent is the
-/// enclosing one (variables declared in it are local to the block), and is
+/// Helpers over the event log.  `opened_below_outer(s)`: scope `s` is not
+/// the enclosing scope itself but was opened (directly or through other
+/// newly opened scopes) below it.
+fn parent_of(log: &scopeshape::Log, s: u8) -> Option<u8> {
+    let mut i = 0;
+    while i < 12 {
+        if let Some(Ev::Sub { new, parent, .. }) = log.ev(i) {
+            if new == s {
+                return Some(parent);
+            }
+        }
+        i += 1;
+    }
+    None
+}
+fn opened_below_outer(log: &scopeshape::Log, s: u8) -> bool {
+    let mut cur = s;
+    let mut steps = 0;
+    while steps < 4 {
+        match parent_of(log, cur) {
+            Some(0) => return true,
+            Some(p) => cur = p,
+            None => return false,
+        }
+        steps += 1;
+    }
+    false
+}
+/// the i-th Body event: (scope, destination, index in the log)
+fn nth_body(log: &scopeshape::Log, n: usize) -> Option<(u8, u8, usize)> {
+    let mut i = 0;
+    let mut seen = 0;
+    while i < 12 {
+        if let Some(Ev::Body { scope, dest }) = log.ev(i) {
+            if seen == n {
+                return Some((scope, dest, i));
+            }
+            seen += 1;
+        }
+        i += 1;
+    }
+    None
+}
+fn count_cond(log: &scopeshape::Log) -> usize {
+    let mut i = 0;
+    let mut n = 0;
+    while i < 12 {
+        if let Some(Ev::Cond { .. }) = log.ev(i) {
+            n += 1;
+        }
+        i += 1;
+    }
+    n
+}
+
+/// C16: the body of `@media` runs (once) in a NEW scope opened below the
+/// enclosing one — variables declared in it are local to the block — and is
 /// written to the @media block.
 #[kani::proof]
 #[kani::unwind(14)]
 fn c16_media_body_runs_in_a_new_sub_scope() {
     let outer = MockScope::outer();
     assert!(scopeshape::snippet_media_scope(Some(&0), scopeshape::Dest(5), outer.clone(), ()).is_ok());
-    assert!(outer.log.logged() == 2, "@media: one new scope, one body run");
-    assert!(outer.log.ev(0) == Some(Ev::Sub { new: 1, parent: 0, selectors: false }), "@media opens a sub scope of the enclosing scope");
-    assert!(outer.log.ev(1) == Some(Ev::Body { scope: 1, dest: 5 }), "@media: the body runs in the new scope");
+    match nth_body(outer.log, 0) {
+        Some((scope, dest, _)) => {
+            assert!(opened_below_outer(outer.log, scope), "@media: the body runs in a new scope opened below the enclosing scope, not in the enclosing scope itself");
+            assert!(dest == 5, "@media: the body is written to the @media block");
+        }
+        None => assert!(false, "@media: the body runs"),
+    }
+    assert!(nth_body(outer.log, 1).is_none(), "@media: the body runs once");
 }
-/// C16: the body of an at-rule runs in a new scope (with root selectors for
-/// @keyframes), written to the at-rule's block.
-fn atrule_case(name: &str, keyframes: bool) {
+/// C16: the body of an at-rule runs in a new scope, written to the at-rule's
+/// block.
+fn atrule_case(name: &str) {
     let outer = MockScope::outer();
     let mut dest = scopeshape::Dest(5);
     assert!(scopeshape::snippet_atrule_scope(String::from(name), 0, &0, &mut dest, outer.clone(), ()).is_ok());
-    assert!(outer.log.logged() == 2, "at-rule: one new scope, one body run");
-    assert!(outer.log.ev(0) == Some(Ev::Sub { new: 1, parent: 0, selectors: keyframes }), "an at-rule opens a sub scope of the enclosing scope");
-    assert!(outer.log.ev(1) == Some(Ev::Body { scope: 1, dest: 6 }), "at-rule: the body runs in the new scope, inside the new block");
+    match nth_body(outer.log, 0) {
+        Some((scope, dest, _)) => {
+            assert!(opened_below_outer(outer.log, scope), "at-rule: the body runs in a new scope opened below the enclosing scope");
+            assert!(dest == 6, "at-rule: the body is written inside the new block");
+        }
+        None => assert!(false, "at-rule: the body runs"),
+    }
+    assert!(nth_body(outer.log, 1).is_none(), "at-rule: the body runs once");
 }
 #[kani::proof]
 #[kani::unwind(14)]
 fn c16_atrule_body_runs_in_a_new_sub_scope() {
-    atrule_case("supports", false);
+    atrule_case("supports");
 }
 #[kani::proof]
 #[kani::unwind(14)]
 fn c16_keyframes_body_runs_in_a_new_sub_scope() {
-    atrule_case("keyframes", true);
+    atrule_case("keyframes");
 }
-/// C16: the `@for` variable is local to the loop body: each iteration gets a
-/// fresh sub scope of the enclosing one, the variable is defined THERE (not
-/// in the enclosing scope) and the body runs in it.
+/// C16: the `@for` variable is local to the loop: for each value the
+/// variable is defined in a scope opened below the enclosing one (never in
+/// the enclosing scope itself) and the body then runs in that same scope.
 #[kani::proof]
 #[kani::unwind(14)]
 fn c16_for_variable_is_local_to_each_iteration() {
@@ -446,34 +511,48 @@ fn c16_for_variable_is_local_to_each_iteration() {
     let mut dest = scopeshape::Dest(5);
     let (a, b): (u8, u8) = (kani::any(), kani::any());
     assert!(scopeshape::snippet_for_arm(&9, &scopeshape::Range2([a, b]), &0, &mut dest, outer.clone(), ()).is_ok());
-    assert!(outer.log.logged() == 6, "@for over two values: per value a new scope, a definition, a body run");
-    assert!(outer.log.ev(0) == Some(Ev::Sub { new: 1, parent: 0, selectors: false }));
-    assert!(outer.log.ev(1) == Some(Ev::Define { scope: 1, name: 9, value: a }), "@for defines its variable in the new scope");
-    assert!(outer.log.ev(2) == Some(Ev::Body { scope: 1, dest: 5 }), "@for: the body runs in the new scope");
-    assert!(outer.log.ev(3) == Some(Ev::Sub { new: 2, parent: 0, selectors: false }), "@for: the next iteration starts from the enclosing scope again");
-    assert!(outer.log.ev(4) == Some(Ev::Define { scope: 2, name: 9, value: b }));
-    assert!(outer.log.ev(5) == Some(Ev::Body { scope: 2, dest: 5 }));
+    let vals = [a, b];
+    let mut k = 0;
+    while k < 2 {
+        match nth_body(outer.log, k) {
+            Some((scope, dest, at)) => {
+                assert!(opened_below_outer(outer.log, scope), "@for: the body runs in a new scope, not in the enclosing one");
+                assert!(at >= 1 && outer.log.ev(at - 1) == Some(Ev::Define { scope, name: 9, value: vals[k] }), "@for: the loop variable is defined, with this iteration's value, in the scope the body runs in");
+                assert!(dest == 5);
+            }
+            None => assert!(false, "@for: one body run per value"),
+        }
+        k += 1;
+    }
+    assert!(nth_body(outer.log, 2).is_none(), "@for over two values: two body runs");
 }
-/// C16: `@while` opens one sub scope; the condition and every run of the
-/// body use it.
+/// C16: `@while` never runs its body in the enclosing scope itself (what is
+/// declared in the body stays local); the body runs once per truthy
+/// condition.
 #[kani::proof]
 #[kani::unwind(14)]
-fn c16_while_body_and_condition_share_one_sub_scope() {
+fn c16_while_body_runs_in_a_sub_scope() {
     let outer = MockScope::outer();
     let mut dest = scopeshape::Dest(5);
     let cond = scopeshape::Cond(Cell::new(2));
     assert!(scopeshape::snippet_while_arm(&cond, &0, &mut dest, outer.clone(), ()).is_ok());
-    assert!(outer.log.logged() == 6, "@while with two truthy conditions: one scope, three evaluations, two runs");
-    assert!(outer.log.ev(0) == Some(Ev::Sub { new: 1, parent: 0, selectors: false }));
-    assert!(outer.log.ev(1) == Some(Ev::Cond { scope: 1 }));
-    assert!(outer.log.ev(2) == Some(Ev::Body { scope: 1, dest: 5 }));
-    assert!(outer.log.ev(3) == Some(Ev::Cond { scope: 1 }));
-    assert!(outer.log.ev(4) == Some(Ev::Body { scope: 1, dest: 5 }));
-    assert!(outer.log.ev(5) == Some(Ev::Cond { scope: 1 }));
+    let mut k = 0;
+    while k < 2 {
+        match nth_body(outer.log, k) {
+            Some((scope, _, _)) => assert!(opened_below_outer(outer.log, scope), "@while: the body runs in a scope opened below the enclosing one"),
+            None => assert!(false, "@while with two truthy conditions: two body runs"),
+        }
+        k += 1;
+    }
+    assert!(nth_body(outer.log, 2).is_none(), "@while: no run after the condition became false");
+    assert!(count_cond(outer.log) == 3, "@while: the condition is evaluated before every run and once more");
 }
-/// C16: `@each` saves the local values of its variables before the first
-/// iteration and restores exactly what it saved after the last one; the
-/// variables are set in, and the body runs in, the enclosing scope.
+/// C16: `@each` variables are local to the loop.  Either the loop runs in a
+/// scope of its own, or — rsass's way — it runs in the enclosing scope and
+/// brackets the iterations with store_local_values / restore_local_values:
+/// then the save comes before the first binding and exactly what was saved
+/// is restored after the last body run.  In both cases each value is bound
+/// immediately before the body runs, in the scope the body runs in.
 #[kani::proof]
 #[kani::unwind(14)]
 fn c16_each_saves_and_restores_its_variables() {
@@ -481,15 +560,30 @@ fn c16_each_saves_and_restores_its_variables() {
     let mut dest = scopeshape::Dest(5);
     let (a, b): (u8, u8) = (kani::any(), kani::any());
     assert!(scopeshape::snippet_each_arm(&9, &scopeshape::Values2([a, b]), &0, &mut dest, outer.clone(), ()).is_ok());
-    assert!(outer.log.logged() == 6, "@each over two values: save, (set, run) x 2, restore");
-    assert!(outer.log.ev(0) == Some(Ev::Store { scope: 0 }), "@each saves the variables first");
-    assert!(outer.log.ev(1) == Some(Ev::DefineMulti { scope: 0, value: a }));
-    assert!(outer.log.ev(2) == Some(Ev::Body { scope: 0, dest: 5 }));
-    assert!(outer.log.ev(3) == Some(Ev::DefineMulti { scope: 0, value: b }));
-    assert!(outer.log.ev(4) == Some(Ev::Body { scope: 0, dest: 5 }));
-    assert!(outer.log.ev(5) == Some(Ev::Restore { scope: 0, token: 77 }), "@each restores what it saved, after the last iteration");
+    let vals = [a, b];
+    let mut k = 0;
+    let mut in_outer = false;
+    while k < 2 {
+        match nth_body(outer.log, k) {
+            Some((scope, _, at)) => {
+                assert!(at >= 1 && outer.log.ev(at - 1) == Some(Ev::DefineMulti { scope, value: vals[k] }), "@each: this iteration's value is bound right before the body runs, in the body's scope");
+                if scope == 0 {
+                    in_outer = true;
+                } else {
+                    assert!(opened_below_outer(outer.log, scope));
+                }
+            }
+            None => assert!(false, "@each: one body run per value"),
+        }
+        k += 1;
+    }
+    assert!(nth_body(outer.log, 2).is_none(), "@each over two values: two body runs");
+    if in_outer {
+        let n = outer.log.logged();
+        assert!(outer.log.ev(0) == Some(Ev::Store { scope: 0 }), "@each in the enclosing scope: the variables are saved before the first binding");
+        assert!(n >= 1 && outer.log.ev(n - 1) == Some(Ev::Restore { scope: 0, token: 77 }), "@each in the enclosing scope: exactly what was saved is restored after the last run");
+    }
 }
-
 /// C36 (and C16): a module loaded by `@use` / `@forward` is evaluated in a
 /// new global scope that has the output FORMAT of the scope that loads it
 /// (so its comments are kept or dropped by the same style), its `with`
